@@ -103,6 +103,7 @@ func main() {
 		if s.Storm > 0 {
 			var wg sync.WaitGroup
 			start := make(chan struct{})
+			ids := make([][]string, s.Storm) // the session identifiers the handler hands out, per goroutine
 			for g := 0; g < s.Storm; g++ {
 				wg.Add(1)
 				go func(g int) {
@@ -123,12 +124,25 @@ func main() {
 								p, aerr = h.Authenticate(context.Background(), auth.ApplicationContext{ClientID: []byte("c"), Username: []byte(q.U), Password: []byte(q.P)}, auth.TransportContext{})
 							}()
 							r.Emit(rec.Ev{"op": "auth", "u": q.U, "p": q.P, "ok": aerr == nil && !pn, "mount": p.MountPoint, "idlen": len(p.ID), "panic": pn})
+							if aerr == nil && !pn {
+								ids[g] = append(ids[g], p.ID)
+							}
 						}
 					}
 				}(g)
 			}
 			close(start)
 			wg.Wait()
+			// every admitted CONNECT becomes a session under the identifier handed out here: two equal ones are one session
+			seen := map[string]bool{}
+			total := 0
+			for _, l := range ids {
+				for _, id := range l {
+					seen[id] = true
+					total++
+				}
+			}
+			r.Emit(rec.Ev{"op": "ids", "n": total, "distinct": len(seen)})
 			continue
 		}
 		for _, q := range s.Queries {
